@@ -295,12 +295,13 @@ Qed.
 
 (* no None / NaN sample ever reaches the function (every history) *)
 Theorem passed_all_valid : forall c es T osp olen x,
-  In x (snd (htick c (hfinal c (hinit c) es) T osp olen)) -> i_kind x = 0 /\ In x (valid_hist es).
+  In x (snd (htick c (hfinal c (hinit c) es) T osp olen)) ->
+  i_kind x <> 1 /\ i_kind x <> 2 /\ In x (valid_hist es).
 Proof.
   intros c es T osp olen x Hin.
   pose proof (subseq_In _ _ x (passed_in_arrival_order c es T osp olen) Hin) as Hv.
-  split; auto. pose proof (valid_hist_valid es) as F. rewrite Forall_forall in F.
-  specialize (F x Hv). unfold item_valid in F. lia.
+  pose proof (valid_hist_valid es) as F. rewrite Forall_forall in F.
+  specialize (F x Hv). unfold item_valid in F. repeat split; auto; lia.
 Qed.
 
 (* nothing stamped after T reaches the function (time-ordered histories) *)
